@@ -159,9 +159,10 @@ func Run(o Opts) Result {
 func Printed(out, tag string) []string {
 	var res []string
 	pre := `<<"` + tag + `"`
+	pre2 := `"` + tag + `|`
 	for _, ln := range strings.Split(out, "\n") {
 		ln = strings.TrimSpace(ln)
-		if strings.HasPrefix(ln, pre) {
+		if strings.HasPrefix(ln, pre) || strings.HasPrefix(ln, pre2) {
 			res = append(res, ln)
 		}
 	}
